@@ -37,13 +37,23 @@ def _machine():
     return _H['h']
 
 
+_BOOT = {}
+
+
+def boot_hook(machine):
+    run = _BOOT.get('run')
+    if run is not None:
+        run.on_boot(machine)
+
+
 class BusRun:
     def __init__(self, sched, ctxkind, nestkind='direct'):
         self.nestkind = nestkind
         self.depth = 0
-        self.h = _machine()
-        self.m = self.h.machine
-        self.evm = self.m.events
+        if ctxkind != 'boot':
+            self.h = _machine()
+            self.m = self.h.machine
+            self.evm = self.m.events
         self.sched = sched
         self.ctxkind = ctxkind
         self.ev = []
@@ -165,7 +175,61 @@ class BusRun:
         for _ in range(3):
             h.advance_time_and_run(0)
 
+    def bursts(self):
+        """The top-level bursts of the schedule, in order (consumes them)."""
+        i, n = 0, len(self.sched)
+        while i < n:
+            if i in self.consumed or self.sched[i]['op'] not in ('post', 'add', 'remove'):
+                i += 1
+                continue
+            burst = []
+            while i < n and i not in self.consumed and self.sched[i]['op'] in ('post', 'add', 'remove'):
+                burst.append(self.sched[i])
+                self.consumed.add(i)
+                i += 1
+            yield burst
+
+    def on_boot(self, machine):
+        """Called from custom code while MPF boots: the first burst runs right here (no event is being handled), the second
+        from a handler of the boot's own init_phase_5 queue event."""
+        self.m = machine
+        self.evm = machine.events
+        gen = self.bursts()
+        self._gen = gen
+        first = next(gen, None)
+        if first:
+            for s in first:
+                self.do(s)
+
+        def later(**kwargs):
+            b = next(gen, None)
+            if b:
+                for s in b:
+                    self.do(s)
+        self.keys['_boot5'] = self.evm.add_handler('init_phase_5', later, priority=1)
+
+    def run_boot(self):
+        _BOOT['run'] = self
+        try:
+            self.h = harness.boot('base_boot')
+        finally:
+            _BOOT['run'] = None
+        try:
+            self.ctxkind = 'direct'
+            for _ in range(3):
+                self.h.advance_time_and_run(0)
+            for burst in self._gen:
+                self.in_context(lambda b=burst: [self.do(s) for s in b])
+            for _ in range(3):
+                self.h.advance_time_and_run(0)
+            self.ev.append({'op': 'quiesce'})
+        finally:
+            harness.shutdown(self.h)
+        return self.ev
+
     def run(self):
+        if self.ctxkind == 'boot':
+            return self.run_boot()
         try:
             i = 0
             n = len(self.sched)
@@ -242,6 +306,10 @@ def run(ctx):
     jobs = [([s['act'] for s in b], rnd.choice(CTXS), rnd.choice(NK)) for b in behs]
     for s in handmade():
         jobs += [(s, c, k) for c in CTXS for k in ('direct', 'run_now', 'switch')]
+    # posted while MPF boots: the first burst from custom code (between init_phase_3 and init_phase_4), the second from a
+    # handler of init_phase_5; every such schedule boots a machine of its own
+    jobs += [(s, 'boot', 'direct') for s in handmade()]
+    jobs += [([s['act'] for s in b], 'boot', rnd.choice(NK)) for b in behs[:(24 if ctx.quick else 400)]]
     traces = harness.pmap(exec_schedule, jobs, chunk=8)
     with open(wd + '/Trace.cfg', 'w') as f:
         f.write(cfg_text('TSpec', '{}', '{}', 10 ** 6, 10 ** 6, '{}', '{}', '{}', 'DefaultCondSet', '{}', invs=False, trace=True))
@@ -275,14 +343,14 @@ def run(ctx):
     from drivers import c02
     wdq = tlc.prepare(ctx.scratch, 'QueueEvents', 'queueevents_c01')
     with open(wdq + '/MCK.cfg', 'w') as f:
-        f.write(c02.cfg_text('MCSpec', '{"q1"}', '{"h1", "h2"}', 2, 4 if ctx.quick else 5,
+        f.write(c02.cfg_text('MCSpec', '{"q1"}', '{"h1", "h2"}', 1 if ctx.quick else 2, 4 if ctx.quick else 5,
                              c02.MC_INV + 'INVARIANT CondRespected\n', '{TRUE, FALSE}', 'FullCondSet', '{0, 1}')
                 .replace('Prio = {1, 2, 3}', 'Prio = {1, 2}'))
     r = tlc.expect_ok(tlc.check(wdq, 'QueueEventsMC', 'MCK.cfg', timeout=3000), 'QueueEvents design check (kwargs, conditions)')
-    ctx.add_tlc('QueueEventsMC (kwargs + conditions)', r, {'Ev': 1, 'Hid': 2, 'MaxTasks': 2, 'MaxOps': 4 if ctx.quick else 5})
+    ctx.add_tlc('QueueEventsMC (kwargs + conditions)', r, {'Ev': 1, 'Hid': 2, 'MaxTasks': 1 if ctx.quick else 2, 'MaxOps': 4 if ctx.quick else 5})
     ctx.coverage['monitors'] += ['CondRespected (queue events)']
     c02.queue_traces(ctx, wdq, True, 'C01', 120 if ctx.quick else 2500, 50 if ctx.quick else 80, with_modes=False)
-    ctx.assumptions += ['posts during machine boot are not driven', 'handlers are plain functions or, on the queue-event path, '
+    ctx.assumptions += ['boot context: custom code loaded after init_phase_3 and a handler of init_phase_5', 'handlers are plain functions or, on the queue-event path, '
                         'coroutines; waiting/completion of queue events is judged by C02']
 
 
